@@ -112,6 +112,10 @@ def gen_cases(tier, seed):
     from .. import util_knots as K
     for d in K.huge_shapes(tier):
         cases.append(dict(kind='base', shape=d))
+    # data variety (tuples / ints kept as given, kept knot ranges, unusual coordinates and weights) and pairs of such respects
+    small = [d for d in K.variety_shapes(tier) if all(n <= 9 for n in d['sizes']) and d['pdim'] <= 2]
+    for d in small[::(3 if tier == 'quick' else 1)]:
+        cases.append(dict(kind='base', shape=d))
     cases.append(dict(kind='cross'))
     for d in _base_descs('quick'):
         if d.get('normalize_kv', True) and any(len(kv) > 2 * (p + 1) for kv, p in zip(d['kvs'], d['degrees'])):
